@@ -188,6 +188,27 @@ def work(repo, tmp, out):
             text = open(os.path.join(HERE, "coq", fn)).read()
             proofs[name] = ProofFile(name, text)
             tasks[name] = ("proof", deps_of(text))
+    # SRCGEN_ONLY / SRCGEN_SKIP (regular expressions, matched case-insensitively against "<proof file> <obligation>"
+    # resp. the proof file's name): compile only the proof files a property is about, plus what they import
+    only, skip = os.environ.get("SRCGEN_ONLY"), os.environ.get("SRCGEN_SKIP")
+    if only:
+        def wanted(name):
+            pf = proofs[name]
+            if skip and re.search(skip, name.lower()):
+                return False
+            return any(re.search(only, (name + ".v " + ob).lower()) for ob in pf.obligations + [""])
+        keep = set(n for n in proofs if wanted(n))
+        todo = list(keep)
+        while todo:                                   # what they import: hand-written files and generated modules
+            for d in tasks[todo.pop()][1]:
+                if d in tasks and d not in keep:
+                    keep.add(d); todo.append(d)
+        out["selected_proof_files"] = sorted(n for n in keep if n in proofs)
+        out["not_selected_proof_files"] = len(proofs) - len(out["selected_proof_files"])
+        for n in list(tasks):
+            if n not in keep:
+                del tasks[n]
+                proofs.pop(n, None)
     out["obligations"] = sum(len(p.obligations) for p in proofs.values())
     done, bad, lock = set(), {}, threading.Condition()
     internal = []
